@@ -521,7 +521,7 @@ bool parse_timbuk_ref(const std::string& text, Desc& d, std::string* err) {
 }
 std::string desc_to_timbuk(const Desc& d, bool parens) {
 	std::ostringstream o; o << "Ops";
-	for (const Sym& s : d.ops) o << " " << s.first << ":" << s.second;
+	for (const Sym& s : d.ops) { o << " " << s.first; if (s.second >= 0) o << ":" << s.second; }      // a symbol may be declared without a rank
 	o << "\nAutomaton " << (d.name.empty() ? "anonymous" : d.name) << "\nStates";
 	for (const std::string& s : d.states) o << " " << s;
 	o << "\nFinal States"; for (const std::string& s : d.finals) o << " " << s;
